@@ -62,9 +62,7 @@ REG.define("noimp_complete", dict(g=RMG, B="Bag[Dep]", pre="Str", R="Bag[RVM]"),
            "forall(Mod, lambda s: implies(viol_subj(B, s), exists(RVM, lambda m: (m in R) and noimp_match(g, B, s, pre, m))))")
 REG.define("other_complete", dict(g=RMG, B="Bag[Dep]", R="Bag[RVM]"),
            "forall(Dep, lambda d: implies(d in B, mk_rvm(quoted(mid(d[0])), imports_verb(g), quoted(mid(d[1]))) in R))")
-REG.macro("noimp_post", ["g", "B", "pre", "R"], "forall(RVM, lambda m: implies(m in R, noimp_sound(g, B, pre, m))) and noimp_complete(g, B, pre, R)")
 
-_OPQ = ["noimp_match", "other_img", "noimp_sound", "noimp_complete", "other_complete"]
 
 
 def _mg(name, **kw):
@@ -75,27 +73,76 @@ def _mg(name, **kw):
     return REG.add(Contract(name, **kw))
 
 
-# ---------------------------------------------------------------- group 1: base class plumbing and dispatchers
+
+# ---------------------------------------------------------------- group 1: base class plumbing, dispatchers, composition into records / lines / text
 _mg(f"{BASE}._extend", params=dict(self=RMG, messages="Bag[RVM]", new_messages="Opt[Bag[RVM]]"), returns="None", modifies=["messages"],
     ensures=["forall(RVM, lambda m: (m in messages) == ((m in old(messages)) or ((not is_none(new_messages)) and (m in unwrap(new_messages)))))"])
+REG.macro("line", ["m"], "rvm_subject(m) + ' ' + rvm_verb(m) + ' ' + rvm_object(m) + '.'")
+_NOIMP_BUCKETS = [("should_violations", False), ("should_only_violations_by_no_import", False), ("should_except_violations", True), ("should_only_except_violations_by_no_import", True)]
+_OTHER_BUCKETS = ["should_only_violations_by_forbidden_import", "should_not_violations", "should_only_except_violations_by_forbidden_import", "should_not_except_violations"]
 
-_RV = dict(self=RMG, rule_violations="RuleViolations")
-# the six single-bucket dispatchers: the records of the dispatcher are exactly the records its bucket produces
-for _fn, _bucket, _kind in (
-        ("_create_should_import_violated_messages", "should_violations", "noimp"),
-        ("_create_should_only_import_no_import_violated_messages", "should_only_violations_by_no_import", "noimp"),
-        ("_create_should_only_import_forbidden_import_violated_messages", "should_only_violations_by_forbidden_import", "other"),
-        ("_create_should_not_import_violated_messages", "should_not_violations", "other"),
-        ("_create_should_import_except_violated_messages", "should_except_violations", "noimp_any"),
-        ("_create_should_only_import_except_no_import_violated_messages", "should_only_except_violations_by_no_import", "noimp_any"),
-        ("_create_should_only_import_except_forbidden_import_violated_messages", "should_only_except_violations_by_forbidden_import", "other"),
-        ("_create_should_not_import_except_violated_messages", "should_not_except_violations", "other")):
-    if _kind == "other":
-        _ens = [f"forall(RVM, lambda m: (m in result) == other_img(self, rule_violations.{_bucket}, m))"]
-    else:
-        _pre = "''" if _kind == "noimp" else repr(ANY_MOD)
-        _ens = [f"noimp_post(self, rule_violations.{_bucket}, {_pre}, result)"]
-    _mg(f"{RMG}.{_fn}", params=_RV, returns="Bag[RVM]", ensures=_ens, opaque=[o for o in _OPQ if o != "other_img"])
+
+def _compose(cls, p, any_pre, req=None):
+    """Contracts of the dispatchers and of the composition for the generator class `cls` (dynamic class of self). p: prefix of the predicate family
+    ('' modules, 'l' layers); any_pre: the text in front of the object list of an 'other than' line; req(bucket): precondition on a missing-import bucket."""
+    def mg(fn, owner, **kw):
+        if cls == RMG:
+            return _mg(f"{owner}.{fn}", **kw)
+        return _mg(f"{cls}.{fn}", qualname=f"{owner}.{fn}", **kw)
+    rv = dict(self=cls, rule_violations="RuleViolations")
+    pre_of = lambda is_any: repr(any_pre) if is_any else "''"
+    rq = lambda *bs: [req(b) for b in bs] if req else []
+    REG.macro(p + "noimp_post", ["g", "B", "pre", "R"], f"forall(RVM, lambda m: implies(m in R, {p}noimp_sound(g, B, pre, m))) and {p}noimp_complete(g, B, pre, R)")
+    opq = [p + o for o in ("noimp_match", "noimp_sound", "noimp_complete", "other_complete")]
+    # the single-bucket dispatchers: the records of the dispatcher are exactly the records its bucket produces
+    for fn, bucket, kind in (
+            ("_create_should_import_violated_messages", "should_violations", "noimp"),
+            ("_create_should_only_import_no_import_violated_messages", "should_only_violations_by_no_import", "noimp"),
+            ("_create_should_only_import_forbidden_import_violated_messages", "should_only_violations_by_forbidden_import", "other"),
+            ("_create_should_not_import_violated_messages", "should_not_violations", "other"),
+            ("_create_should_import_except_violated_messages", "should_except_violations", "noimp_any"),
+            ("_create_should_only_import_except_no_import_violated_messages", "should_only_except_violations_by_no_import", "noimp_any"),
+            ("_create_should_only_import_except_forbidden_import_violated_messages", "should_only_except_violations_by_forbidden_import", "other"),
+            ("_create_should_not_import_except_violated_messages", "should_not_except_violations", "other")):
+        if kind == "other":
+            mg(fn, RMG, params=rv, returns="Bag[RVM]", opaque=opq, ensures=[f"forall(RVM, lambda m: (m in result) == {p}other_img(self, rule_violations.{bucket}, m))"])
+        else:
+            mg(fn, RMG, params=rv, returns="Bag[RVM]", opaque=opq, requires=rq(bucket), ensures=[f"{p}noimp_post(self, rule_violations.{bucket}, {pre_of(kind == 'noimp_any')}, result)"])
+    REG.macro(p + "all_sound", ["g", "rv", "m"],
+              " or ".join([f"{p}noimp_sound(g, rv.{b}, {pre_of(a)}, m)" for b, a in _NOIMP_BUCKETS] + [f"{p}other_img(g, rv.{b}, m)" for b in _OTHER_BUCKETS]))
+    REG.macro(p + "all_complete", ["g", "rv", "R"],
+              " and ".join([f"{p}noimp_complete(g, rv.{b}, {pre_of(a)}, R)" for b, a in _NOIMP_BUCKETS] + [f"{p}other_complete(g, rv.{b}, R)" for b in _OTHER_BUCKETS]))
+    REG.macro(p + "all_complete_l", ["g", "rv", "L"],
+              " and ".join([f"{p}noimp_complete_l(g, rv.{b}, {pre_of(a)}, L)" for b, a in _NOIMP_BUCKETS] + [f"{p}other_complete_l(g, rv.{b}, L)" for b in _OTHER_BUCKETS]))
+    REG.macro(p + "lines_post", ["g", "rv", "L"],
+              f"forall(Str, lambda t: implies(t in L, exists(RVM, lambda m: {p}all_sound(g, rv, m) and t == line(m)))) and {p}all_complete_l(g, rv, L)")
+    REG.macro(p + "text_post", ["g", "rv", "t"], f"exists(Bag[Str], lambda L: {p}lines_post(g, rv, L) and is_join(t, '\\n', L))")
+    opq2 = [p + "noimp_match", p + "noimp_sound"]
+    l2 = dict(messages="Bag[RVM]")
+    # should_only = forbidden-import bucket + no-import bucket: every record comes from one of the two, each bucket is completely reported
+    for fn, fb, nb, is_any in (("_create_should_only_import_violated_messages", "should_only_violations_by_forbidden_import", "should_only_violations_by_no_import", False),
+                               ("_create_should_only_import_except_violated_messages", "should_only_except_violations_by_forbidden_import", "should_only_except_violations_by_no_import", True)):
+        mg(fn, RMG, params=rv, returns="Bag[RVM]", locals=l2, opaque=opq2, requires=rq(nb),
+           ensures=[f"forall(RVM, lambda m: implies(m in result, {p}other_img(self, rule_violations.{fb}, m) or {p}noimp_sound(self, rule_violations.{nb}, {pre_of(is_any)}, m)))",
+                    f"{p}other_complete(self, rule_violations.{fb}, result)", f"{p}noimp_complete(self, rule_violations.{nb}, {pre_of(is_any)}, result)"])
+    allreq = rq(*[b for b, _ in _NOIMP_BUCKETS])
+    # all eight buckets: every record is the image of an entry of SOME bucket (in that bucket's role), every entry of EVERY bucket has its record
+    mg("_create_violation_messages", BASE, params=rv, returns="Bag[RVM]", locals=l2, opaque=opq2, requires=allreq,
+       ensures=[f"forall(RVM, lambda m: implies(m in result, {p}all_sound(self, rule_violations, m)))", f"{p}all_complete(self, rule_violations, result)"])
+    # C03: every line is the rendering 'subject verb object.' of a record of some bucket; every bucket entry has its line; no line occurs twice (sorted(list(set)))
+    mg("create_rule_violation_messages", BASE, params=rv, returns="Bag[Str]", returns_nodup=True, locals=dict(messages="Set[Str]"), opaque=opq2, requires=allreq,
+       ensures=[f"{p}lines_post(self, rule_violations, result)"],
+       loops={0: dict(sig="for message in self._create_violation_messages(rule_violations)", invariant=[
+           "forall(Str, lambda t: (t in messages) == exists(RVM, lambda m: (m in seen) and t == line(m)))"])})
+    # the text of the AssertionError: a newline-join of (some arrangement of) exactly those lines
+    mg("create_rule_violation_message", BASE, params=rv, returns="Str", opts=["join_rel"], requires=allreq,
+       opaque=opq2 + [p + "other_img", p + "other_complete_l", p + "noimp_complete_l"], ensures=[f"{p}text_post(self, rule_violations, result)"])
+
+
+REG.define("other_complete_l", dict(g=RMG, B="Bag[Dep]", L="Bag[Str]"),
+           "forall(Dep, lambda d: implies(d in B, line(mk_rvm(quoted(mid(d[0])), imports_verb(g), quoted(mid(d[1])))) in L))")
+REG.define("noimp_complete_l", dict(g=RMG, B="Bag[Dep]", pre="Str", L="Bag[Str]"),
+           "forall(Mod, lambda s: implies(viol_subj(B, s), exists(RVM, lambda m: (line(m) in L) and noimp_match(g, B, s, pre, m))))")
 
 # ---------------------------------------------------------------- group 2: the 'X does not import A, B' records (one per subject, all its missing objects)
 _mg(f"{RMG}.__init__", params=dict(self=RMG, import_rule="Bool"), returns="None", modifies=["self"],
@@ -147,54 +194,9 @@ _mg(f"{RMG}._create_no_import_other_than_between_original_subject_and_objects_me
     ensures=[f"noimp_post(self, rule_violations, {ANY_MOD!r}, result)"], locals=_NOIMP_LOCALS, loops=_fmt_loops(repr(ANY_MOD)),
     ghost_at={"self._add_combined_any_rule_objects(": _NOIMP_HINTS})
 
-# ---------------------------------------------------------------- group 1 (continued): composition of the buckets into the record list and the text lines
-REG.macro("all_sound", ["g", "rv", "m"],
-          "noimp_sound(g, rv.should_violations, '', m) or other_img(g, rv.should_only_violations_by_forbidden_import, m) "
-          "or noimp_sound(g, rv.should_only_violations_by_no_import, '', m) or other_img(g, rv.should_not_violations, m) "
-          f"or noimp_sound(g, rv.should_except_violations, {ANY_MOD!r}, m) or other_img(g, rv.should_only_except_violations_by_forbidden_import, m) "
-          f"or noimp_sound(g, rv.should_only_except_violations_by_no_import, {ANY_MOD!r}, m) or other_img(g, rv.should_not_except_violations, m)")
-REG.macro("all_complete", ["g", "rv", "R"],
-          "noimp_complete(g, rv.should_violations, '', R) and other_complete(g, rv.should_only_violations_by_forbidden_import, R) "
-          "and noimp_complete(g, rv.should_only_violations_by_no_import, '', R) and other_complete(g, rv.should_not_violations, R) "
-          f"and noimp_complete(g, rv.should_except_violations, {ANY_MOD!r}, R) and other_complete(g, rv.should_only_except_violations_by_forbidden_import, R) "
-          f"and noimp_complete(g, rv.should_only_except_violations_by_no_import, {ANY_MOD!r}, R) and other_complete(g, rv.should_not_except_violations, R)")
-_OPQ2 = ["noimp_match", "noimp_sound"]
-_L2 = dict(messages="Bag[RVM]")
-# should_only = forbidden-import bucket + no-import bucket: every record comes from one of the two, each bucket is completely reported
-_mg(f"{RMG}._create_should_only_import_violated_messages", params=_RV, returns="Bag[RVM]", locals=_L2, opaque=_OPQ2,
-    ensures=["forall(RVM, lambda m: implies(m in result, other_img(self, rule_violations.should_only_violations_by_forbidden_import, m) or noimp_sound(self, rule_violations.should_only_violations_by_no_import, '', m)))",
-             "other_complete(self, rule_violations.should_only_violations_by_forbidden_import, result)",
-             "noimp_complete(self, rule_violations.should_only_violations_by_no_import, '', result)"])
-_mg(f"{RMG}._create_should_only_import_except_violated_messages", params=_RV, returns="Bag[RVM]", locals=_L2, opaque=_OPQ2,
-    ensures=[f"forall(RVM, lambda m: implies(m in result, other_img(self, rule_violations.should_only_except_violations_by_forbidden_import, m) or noimp_sound(self, rule_violations.should_only_except_violations_by_no_import, {ANY_MOD!r}, m)))",
-             "other_complete(self, rule_violations.should_only_except_violations_by_forbidden_import, result)",
-             f"noimp_complete(self, rule_violations.should_only_except_violations_by_no_import, {ANY_MOD!r}, result)"])
-# all eight buckets: every record is the image of an entry of SOME bucket (in that bucket's role), every entry of EVERY bucket has its record
-_mg(f"{BASE}._create_violation_messages", params=_RV, returns="Bag[RVM]", locals=_L2, opaque=_OPQ2,
-    ensures=["forall(RVM, lambda m: implies(m in result, all_sound(self, rule_violations, m)))", "all_complete(self, rule_violations, result)"])
 
-# text lines
-REG.macro("line", ["m"], "rvm_subject(m) + ' ' + rvm_verb(m) + ' ' + rvm_object(m) + '.'")
-REG.define("other_complete_l", dict(g=RMG, B="Bag[Dep]", L="Bag[Str]"),
-           "forall(Dep, lambda d: implies(d in B, line(mk_rvm(quoted(mid(d[0])), imports_verb(g), quoted(mid(d[1])))) in L))")
-REG.define("noimp_complete_l", dict(g=RMG, B="Bag[Dep]", pre="Str", L="Bag[Str]"),
-           "forall(Mod, lambda s: implies(viol_subj(B, s), exists(RVM, lambda m: (line(m) in L) and noimp_match(g, B, s, pre, m))))")
-REG.macro("all_complete_l", ["g", "rv", "L"],
-          "noimp_complete_l(g, rv.should_violations, '', L) and other_complete_l(g, rv.should_only_violations_by_forbidden_import, L) "
-          "and noimp_complete_l(g, rv.should_only_violations_by_no_import, '', L) and other_complete_l(g, rv.should_not_violations, L) "
-          f"and noimp_complete_l(g, rv.should_except_violations, {ANY_MOD!r}, L) and other_complete_l(g, rv.should_only_except_violations_by_forbidden_import, L) "
-          f"and noimp_complete_l(g, rv.should_only_except_violations_by_no_import, {ANY_MOD!r}, L) and other_complete_l(g, rv.should_not_except_violations, L)")
-REG.macro("lines_post", ["g", "rv", "L"],
-          "forall(Str, lambda t: implies(t in L, exists(RVM, lambda m: all_sound(g, rv, m) and t == line(m)))) and all_complete_l(g, rv, L)")
-_mg(f"{BASE}.create_rule_violation_messages", params=_RV, returns="Bag[Str]", returns_nodup=True, locals=dict(messages="Set[Str]"), opaque=_OPQ2,
-    # C03: every line is the rendering 'subject verb object.' of a record of some bucket; every bucket entry has its line; no line occurs twice (sorted(list(set)))
-    ensures=["lines_post(self, rule_violations, result)"],
-    loops={0: dict(sig="for message in self._create_violation_messages(rule_violations)", invariant=[
-        "forall(Str, lambda t: (t in messages) == exists(RVM, lambda m: (m in seen) and t == line(m)))"])})
-# the text of the AssertionError: a newline-join of (some arrangement of) exactly those lines
-REG.macro("text_post", ["g", "rv", "t"], "exists(Bag[Str], lambda L: lines_post(g, rv, L) and is_join(t, '\\n', L))")
-_mg(f"{BASE}.create_rule_violation_message", params=_RV, returns="Str", opts=["join_rel"], opaque=_OPQ2 + ["other_img", "other_complete_l", "noimp_complete_l"],
-    ensures=["text_post(self, rule_violations, result)"])
+_compose(RMG, "", ANY_MOD)
+_OPQ2 = ["noimp_match", "noimp_sound"]
 
 # ---------------------------------------------------------------- group 4: the matcher side (rule_matcher.py): which generator renders the text raised by match
 M_RM = "pytestarch.rule_assessment.rule_check.rule_matcher"
